@@ -18,12 +18,13 @@ theorem consec_snoc (s l : Nat) : consec s (l + 1) = consec s l ++ [s + l] := by
 /-- Invariant of every reachable node; `d` = number of blocks that completely left the pipeline
 in this run. -/
 def Inv (n : Node) : Prop := ∃ d,
-  n.notified = List.range (d + 1) ∧
+  n.notifiedB = List.range (d + 1) ∧
   d ≤ n.p.idx ∧
   n.queue ++ n.toEnqueue.toList = consec (d + 1) (n.p.idx - d) ∧
-  ((n.stage = 0 ∧ n.p.st = d ∧ n.p.res = (if d = 0 then none else some d)) ∨
-   (n.stage = 1 ∧ n.queue ≠ [] ∧ n.p.st = d ∧ n.p.res = some (d + 1)) ∨
-   (n.stage = 2 ∧ n.queue ≠ [] ∧ n.p.st = d + 1 ∧ n.p.res = some (d + 1)))
+  ((n.stage = 0 ∧ n.p.st = d ∧ n.p.res = (if d = 0 then none else some d) ∧ n.notifiedA = List.range (d + 1)) ∨
+   (n.stage = 1 ∧ n.queue ≠ [] ∧ n.p.st = d ∧ n.p.res = some (d + 1) ∧ n.notifiedA = List.range (d + 1)) ∨
+   (n.stage = 2 ∧ n.queue ≠ [] ∧ n.p.st = d + 1 ∧ n.p.res = some (d + 1) ∧ n.notifiedA = List.range (d + 1)) ∨
+   (n.stage = 3 ∧ n.queue ≠ [] ∧ n.p.st = d + 1 ∧ n.p.res = some (d + 1) ∧ n.notifiedA = List.range (d + 2)))
 
 theorem Inv.init : Inv Node.init := ⟨0, by simp [Node.init], by simp [Node.init], by simp [Node.init, consec], by simp [Node.init]⟩
 
@@ -62,45 +63,62 @@ theorem step_inv {n : Node} (h : Inv n) (e : Ev) : Inv (step n e) := by
     | some x =>
       refine ⟨d, hn, hd, ?_, ?_⟩
       · simpa [hte] using hq
-      · rcases hs with hs | hs | hs
+      · rcases hs with hs | hs | hs | hs
         · exact Or.inl hs
         · exact Or.inr (Or.inl ⟨hs.1, by simp, hs.2.2⟩)
-        · exact Or.inr (Or.inr ⟨hs.1, by simp, hs.2.2⟩)
+        · exact Or.inr (Or.inr (Or.inl ⟨hs.1, by simp, hs.2.2⟩))
+        · exact Or.inr (Or.inr (Or.inr ⟨hs.1, by simp, hs.2.2⟩))
   | writeResults =>
     unfold step
     cases hqq : n.queue with
     | nil => exact ⟨d, hn, hd, hq, hs⟩
     | cons x t =>
       obtain ⟨hx, _, _⟩ := head_eq hq hqq
-      rcases hs with hs | hs | hs
+      rcases hs with hs | hs | hs | hs
       · simp only [hs.1]
-        exact ⟨d, hn, hd, by simpa [hqq] using hq, Or.inr (Or.inl ⟨rfl, by simp, hs.2.1, by simp [hx]⟩)⟩
+        exact ⟨d, hn, hd, by simpa [hqq] using hq, Or.inr (Or.inl ⟨rfl, by simp, hs.2.1, by simp [hx], hs.2.2.2⟩)⟩
       · simp only [hs.1]; exact ⟨d, hn, hd, hq, Or.inr (Or.inl hs)⟩
-      · simp only [hs.1]; exact ⟨d, hn, hd, hq, Or.inr (Or.inr hs)⟩
+      · simp only [hs.1]; exact ⟨d, hn, hd, hq, Or.inr (Or.inr (Or.inl hs))⟩
+      · simp only [hs.1]; exact ⟨d, hn, hd, hq, Or.inr (Or.inr (Or.inr hs))⟩
   | commitState =>
     unfold step
     cases hqq : n.queue with
     | nil => exact ⟨d, hn, hd, hq, hs⟩
     | cons x t =>
       obtain ⟨hx, _, _⟩ := head_eq hq hqq
-      rcases hs with hs | hs | hs
+      rcases hs with hs | hs | hs | hs
       · simp only [hs.1]; exact ⟨d, hn, hd, hq, Or.inl hs⟩
       · simp only [hs.1]
-        exact ⟨d, hn, hd, by simpa [hqq] using hq, Or.inr (Or.inr ⟨rfl, by simp, by simp [hx], hs.2.2.2⟩)⟩
-      · simp only [hs.1]; exact ⟨d, hn, hd, hq, Or.inr (Or.inr hs)⟩
-  | notify =>
+        exact ⟨d, hn, hd, by simpa [hqq] using hq, Or.inr (Or.inr (Or.inl ⟨rfl, by simp, by simp [hx], hs.2.2.2⟩))⟩
+      · simp only [hs.1]; exact ⟨d, hn, hd, hq, Or.inr (Or.inr (Or.inl hs))⟩
+      · simp only [hs.1]; exact ⟨d, hn, hd, hq, Or.inr (Or.inr (Or.inr hs))⟩
+  | notifyA =>
+    unfold step
+    cases hqq : n.queue with
+    | nil => exact ⟨d, hn, hd, hq, hs⟩
+    | cons x t =>
+      obtain ⟨hx, _, _⟩ := head_eq hq hqq
+      rcases hs with hs | hs | hs | hs
+      · simp only [hs.1]; exact ⟨d, hn, hd, hq, Or.inl hs⟩
+      · simp only [hs.1]; exact ⟨d, hn, hd, hq, Or.inr (Or.inl hs)⟩
+      · simp only [hs.1]
+        refine ⟨d, hn, hd, by simpa [hqq] using hq, Or.inr (Or.inr (Or.inr ⟨rfl, by simp, hs.2.2.1, hs.2.2.2.1, ?_⟩))⟩
+        simp [hs.2.2.2.2, hx, List.range_succ]
+      · simp only [hs.1]; exact ⟨d, hn, hd, hq, Or.inr (Or.inr (Or.inr hs))⟩
+  | notifyB =>
     unfold step
     cases hqq : n.queue with
     | nil => exact ⟨d, hn, hd, hq, hs⟩
     | cons x t =>
       obtain ⟨hx, hle, ht⟩ := head_eq hq hqq
-      rcases hs with hs | hs | hs
+      rcases hs with hs | hs | hs | hs
       · simp only [hs.1]; exact ⟨d, hn, hd, hq, Or.inl hs⟩
       · simp only [hs.1]; exact ⟨d, hn, hd, hq, Or.inr (Or.inl hs)⟩
+      · simp only [hs.1]; exact ⟨d, hn, hd, hq, Or.inr (Or.inr (Or.inl hs))⟩
       · simp only [hs.1]
-        refine ⟨d + 1, ?_, hle, ht, Or.inl ⟨rfl, hs.2.2.1, ?_⟩⟩
+        refine ⟨d + 1, ?_, hle, ht, Or.inl ⟨rfl, hs.2.2.1, ?_, hs.2.2.2.2⟩⟩
         · simp [hn, hx, List.range_succ]
-        · simp [hs.2.2.2]
+        · simp [hs.2.2.2.1]
 
 theorem run_inv {n : Node} (h : Inv n) (evs : List Ev) : Inv (run n evs) := by
   induction evs generalizing n with
